@@ -78,12 +78,12 @@ Proof.
 Qed.
 
 (* ---------- the conditional hop-by-hop loop of createUpstreamRequest ---------- *)
-Definition hop_step (h : hdr) (k : bytes) : hdr := if is_nil (hget h k) then h else hdel h k.
+Definition hop_step (h : hdr) (k : bytes) : hdr := if has_key h k then hdel h k else h.
 
 Lemma hop_step_lookup h k0 k :
   hlookup (hop_step h k0) k = hlookup h k \/ hlookup (hop_step h k0) k = None.
 Proof.
-  unfold hop_step. destruct (is_nil (hget h k0)); [left; reflexivity|].
+  unfold hop_step. destruct (has_key h k0); [|left; reflexivity].
   rewrite hlookup_hdel. destruct (beq (canon_key k0) k); [right|left]; reflexivity.
 Qed.
 
@@ -93,16 +93,15 @@ Proof.
   apply IH. destruct (hop_step_lookup h k0 k) as [E|E]; congruence.
 Qed.
 
+(* a listed key in canonical form (every entry of hopHeaders is) is gone, whatever its values *)
 Lemma hop_fold_removed L h k0 :
-  In k0 L -> hget h k0 <> [] -> hlookup (fold_left hop_step L h) (canon_key k0) = None.
+  In k0 L -> canon_key k0 = k0 -> hlookup (fold_left hop_step L h) k0 = None.
 Proof.
-  revert h. induction L as [|k1 L IH]; intros h HIn Hne; [destruct HIn|]. simpl.
+  revert h. induction L as [|k1 L IH]; intros h HIn Hc; [destruct HIn|]. simpl.
   destruct HIn as [->|HIn].
-  - apply hop_fold_none. unfold hop_step. destruct (hget h k0) eqn:E; [congruence|]. simpl.
-    rewrite hlookup_hdel, beq_refl. reflexivity.
-  - destruct (hop_step_lookup h k1 (canon_key k0)) as [E|E].
-    + apply IH; [exact HIn|]. rewrite (hget_ext _ h); [exact Hne|exact E].
-    + apply hop_fold_none. exact E.
+  - apply hop_fold_none. unfold hop_step, has_key. destruct (hlookup h k0) eqn:E; [|exact E].
+    rewrite hlookup_hdel, Hc, beq_refl. reflexivity.
+  - apply IH; assumption.
 Qed.
 
 Lemma hop_fold_kept L h k :
@@ -110,7 +109,7 @@ Lemma hop_fold_kept L h k :
 Proof.
   revert h. induction L as [|k1 L IH]; intros h H; simpl; [reflexivity|].
   rewrite IH by (intros k0 H0; apply H; right; exact H0).
-  unfold hop_step. destruct (is_nil (hget h k1)); [reflexivity|].
+  unfold hop_step. destruct (has_key h k1); [|reflexivity].
   rewrite hlookup_hdel. assert (Hk : canon_key k1 <> k) by (apply H; left; reflexivity).
   apply beq_false_iff in Hk. rewrite Hk. reflexivity.
 Qed.
@@ -162,25 +161,38 @@ Proof.
   rewrite E. reflexivity.
 Qed.
 
-(* every hop-by-hop header whose first value is non-empty is removed *)
+(* every hop-by-hop header is removed, whatever its values *)
 Lemma hop_removed h remote k :
-  In k gen_hop_headers -> hget h k <> [] ->
+  In k gen_hop_headers ->
   hlookup (create_upstream_headers remote h) k = None.
 Proof.
-  intros HIn Hne. unfold create_upstream_headers.
+  intros HIn. unfold create_upstream_headers.
   assert (Hx : k <> K_XFF).
   { intros ->. pose proof xff_not_hop as X.
     assert (Y : existsb (beq K_XFF) gen_hop_headers = true)
       by (apply existsb_exists; exists K_XFF; split; [exact HIn|apply beq_refl]).
     congruence. }
   rewrite add_xff_other by exact Hx. rewrite strip_hop_req_eq.
-  pose proof (gen_hop_canon k HIn) as Hc.
-  destruct (hlookup (strip_conn_listed h) k) eqn:E.
-  - rewrite <- Hc. apply hop_fold_removed; [exact HIn|].
-    rewrite (hget_ext _ h); [exact Hne|]. rewrite Hc.
-    rewrite strip_conn_listed_lookup in *.
-    destruct (existsb _ _); [discriminate|reflexivity].
-  - apply hop_fold_none. exact E.
+  apply hop_fold_removed; [exact HIn|exact (gen_hop_canon k HIn)].
+Qed.
+
+(* ... in the spec's own terms: every header that is hop-by-hop per RFC 7230 / RFC 2616 (spec_hop) or
+   named in any Connection line (is_hop_for) is absent upstream *)
+Lemma spec_hop_in_gen k : mem k spec_hop = true -> In k gen_hop_headers.
+Proof.
+  intros H. unfold mem in H. apply existsb_exists in H. destruct H as [x [Hx E]]. apply beq_eq in E. subst x.
+  assert (G : forallb (fun k => mem k gen_hop_headers) spec_hop = true) by (vm_compute; reflexivity).
+  rewrite forallb_forall in G. specialize (G k Hx). unfold mem in G.
+  apply existsb_exists in G. destruct G as [y [Hy E]]. apply beq_eq in E. subst y. exact Hy.
+Qed.
+
+Lemma is_hop_for_removed h remote k :
+  is_hop_for h k = true -> k <> K_XFF -> hlookup (create_upstream_headers remote h) k = None.
+Proof.
+  intros H Hx. unfold is_hop_for in H. apply orb_true_iff in H. destruct H as [H|H].
+  - apply hop_removed. apply spec_hop_in_gen. exact H.
+  - apply existsb_exists in H. destruct H as [tok [HIn E]]. apply beq_eq in E. subst k.
+    apply conn_listed_removed; assumption.
 Qed.
 
 (* a hop-by-hop header that is absent stays absent *)
@@ -568,13 +580,12 @@ Proof. vm_compute. reflexivity. Qed.
 
 (* ---------- refutations (witnesses) ---------- *)
 Definition wit_h1 : hdr := [(bs "Proxy-Authorization"%string, [[]; bs "Basic abc"%string])].
-Lemma hop_empty_first_value_refuted :
-  exists h remote k, In k gen_hop_headers /\ hlookup h k <> None /\
-                     hlookup (create_upstream_headers remote h) k = hlookup h k.
-Proof.
-  exists wit_h1, (bs "192.0.2.7:4711"%string), (bs "Proxy-Authorization"%string).
-  split; [vm_compute; tauto|]. split; [vm_compute; discriminate|vm_compute; reflexivity].
-Qed.
+(* the witness of the former finding F-C04-2 (hop-by-hop header whose first value is empty): removed now *)
+Lemma hop_empty_first_value_removed :
+  In (bs "Proxy-Authorization"%string) gen_hop_headers /\
+  hlookup wit_h1 (bs "Proxy-Authorization"%string) = Some [[]; bs "Basic abc"%string] /\
+  hlookup (create_upstream_headers (bs "192.0.2.7:4711"%string) wit_h1) (bs "Proxy-Authorization"%string) = None.
+Proof. vm_compute. tauto. Qed.
 
 Definition wit_h2 : hdr := [(K_CONNECTION, [bs "close"%string; bs "X-Secret"%string]); (bs "X-Secret"%string, [bs "v1"%string])].
 (* the witness of the former finding F-C04-1 (a header named in a second Connection line): removed now *)
